@@ -49,7 +49,8 @@ def gen_cases(tier, seed):
                     "N": N, "dt": dt,
                     # absolute position of the window: microseconds away from t = 0, within a fraction of its own length of it, or starting at 0
                     "offset": [float(rng.uniform(-1e-6, 1e-6)), float(rng.uniform(-0.6, 0.3) * N * dt), 0.0][int(rng.integers(0, 3))], "t0_frac": float(rng.uniform(0.3, 0.7)),
-                    "t0_sub": float(rng.uniform(0.05, 0.95)), "dtheta": dth, "special": special, "R": float(10 ** rng.uniform(0, 4)),
+                    # position of the shower time between two samples: anywhere, or exactly half-way / a quarter (where a rounding rule shows)
+                    "t0_sub": [float(rng.uniform(0.05, 0.95)), float(rng.uniform(0.05, 0.95)), 0.5, 0.25][int(rng.integers(0, 4))], "dtheta": dth, "special": special, "R": float(10 ** rng.uniform(0, 4)),
                     "ice": ["antarctic", "greenland"][int(rng.integers(0, 2))]})
     return out
 
@@ -79,7 +80,7 @@ def run_case(case):
 
     N, dt = case["N"], case["dt"]
     ts = case["offset"] + np.arange(N) * dt
-    t0 = float(ts[0] + (case["t0_frac"] * N + case["t0_sub"]) * dt)
+    t0 = float(ts[0] + (np.floor(case["t0_frac"] * N) + case["t0_sub"]) * dt)       # a whole number of samples plus the chosen fraction
     thc = float(np.arccos(1 / ice.index(zv)))
     psi = case["special"] if case["special"] is not None else thc + case["dtheta"]
     R = case["R"]
